@@ -82,10 +82,12 @@ impl<'c, 'view> RequireYieldVisitor<'c, 'view> {
 impl Visit for RequireYieldVisitor<'_, '_> {
   noop_visit_type!();
 
-  fn visit_yield_expr(&mut self, _yield_expr: &YieldExpr) {
+  fn visit_yield_expr(&mut self, yield_expr: &YieldExpr) {
     if let Some(last) = self.yield_stack.last_mut() {
       *last += 1;
     }
+    // The operand may contain further generator functions.
+    yield_expr.visit_children_with(self);
   }
 
   fn visit_fn_decl(&mut self, fn_decl: &FnDecl) {
